@@ -40,7 +40,7 @@ def shards(tier):
 
 def floors(tier):
     f = {"cases": 15000, "cases_3plus_keywords_failing": 3000, "cases_2plus_errors_one_keyword": 1000,
-         "rerooted_cases": 3000, "cases_with_references": 2000, "cases_exotic_containers": 3000, "cases_user_keywords_reporting_nothing": 1500}
+         "rerooted_cases": 3000, "cases_with_references": 2000, "cases_exotic_containers": 3000, "cases_user_keywords_reporting_nothing": 1500, "same_reference_text_under_two_scopes": 300}
     for k in MULTI:
         f["multi:" + k] = 100
         f["decomposed:" + k] = 500
@@ -295,6 +295,35 @@ def decompose(ctx, d, S, inst, by_kw, case):
                               "%d missing required properties but %d errors" % (count, len(by_kw.get(k, []))))
 
 
+def two_scope_case(rng, d):
+    """Sibling keywords whose subschemas reach the SAME reference text under different base URIs (two stored documents
+    that each have their own `#/definitions/item` and a neighbouring `item.json`): what one keyword resolved must not
+    decide what the text means for its sibling."""
+    from vf.gen import refs as R
+    idk = impl.IDKW[d]
+    types = ["integer", "string", "array", "null", "boolean", "object"]
+    t1, t2 = rng.sample(types, 2)
+    store = {}
+    for ver, t in (("v1", t1), ("v2", t2)):
+        store[R.STORE_DIR + ver + "/doc.json"] = {"properties": {"v": {"$ref": "#/definitions/item"}, "w": {"$ref": "item.json"}},
+                                                  "definitions": {"item": {"type": t}}}
+        store[R.STORE_DIR + ver + "/item.json"] = {"type": t}
+    a, b = rng.sample(["v1", "v2"], 2)
+    members = [("properties", {"pa": {"$ref": R.STORE_DIR + a + "/doc.json"}}),
+               ("patternProperties", {"^q": {"$ref": R.STORE_DIR + b + "/doc.json"}}),
+               ("additionalProperties", {idk: R.STORE_DIR + b + "/", "items": {"$ref": "item.json"}})]
+    if d >= 4:
+        members.append(("allOf", [{"properties": {"pa": {idk: R.STORE_DIR + b + "/", "properties": {"z": {"$ref": "item.json"}}}}}]))
+    else:
+        members.append(("extends", [{"properties": {"pa": {idk: R.STORE_DIR + b + "/", "properties": {"z": {"$ref": "item.json"}}}}}]))
+    rng.shuffle(members)
+    S = dict(members)
+    vals = [1, "s", [], None, True, {}]
+    inst = {"pa": {"v": rng.choice(vals), "w": rng.choice(vals), "z": rng.choice(vals)}, "qb": {"v": rng.choice(vals), "w": rng.choice(vals)},
+            "other": [rng.choice(vals), rng.choice(vals)]}
+    return S, store, inst
+
+
 def multi_violation_schema(rng, d):
     g = SchemaGen(rng, d, maxdepth=rng.choice([1, 2, 2, 3]), maxkw=8)
     s = g.schema()
@@ -335,6 +364,10 @@ def run(ctx):
             from vf.gen.values import EXOTIC_KINDS
             for j, inst in enumerate(batch):
                 compare(ctx, d, S, inst, wrap="defaultdict" if j % 2 == 0 else EXOTIC_KINDS[1 + (i // 2 + j) % 3])
+        if i % 5 == 1:
+            S3, store3, inst3 = two_scope_case(rng, d)
+            ctx.count("same_reference_text_under_two_scopes")
+            compare(ctx, d, S3, inst3, store=store3, handler_docs={})
         if i % 3 == 2:
             S2 = with_quiet_keywords(rng, S)
             for inst in batch[:3]:
